@@ -293,6 +293,9 @@ fn real_pow(digest: [u8; 32], n_bits: u8, nonce: u64) -> Outcome {
 
 pub fn c09(ctx: &mut Ctx) {
     let scenario = "core.c09";
+    for p in ["pow.leading-zeros-exactly-at-threshold", "pow.one-bit-short"] {
+        ctx.stats.declare_probe(p);
+    }
     // (a) configuration bounds: exhaustive over u8
     if ctx.mine(0) {
         for n in 0u16..=255 {
